@@ -142,7 +142,8 @@ def run(c):
     # vacuity floors: accepted transactions of every type and every outcome
     floor = 20 if quick else 200
     for t in ("legacy", "access", "dynamic", "multi", "cosmos-none", "cosmos-dynfee", "cosmos-web3"):
-        if by_type[t] < floor:
+        # (the legacy EIP-712 chain is one of eight Cosmos entry points of the grid: half the floor)
+        if by_type[t] < (floor // 2 if t == "cosmos-web3" else floor):
             raise Infra("vacuous run: only %d accepted transactions of type %s" % (by_type[t], t))
     for t in ("legacy", "access", "dynamic"):
         for oc in ("success", "revert", "oog", "refund"):
